@@ -12,7 +12,7 @@ static Str describe_expected(const ref::Normal &n) { Str s = ref::recompose(n.u)
 template <class C> struct Runner {
     typedef Api<C> A; typedef typename A::Uri Uri;
     FenceBuf fb; Ledger led; Ctx *ctx; Local *lc;
-    Runner(Ctx *c, Local *l) : fb(4), ctx(c), lc(l) {}
+    Runner(Ctx *c, Local *l, size_t pages = 4) : fb(pages), ctx(c), lc(l) {}
     static Str enc(const Str &t, unsigned mask, int owned, int mgr) { return t + "`" + fmt("%u`%d`%d`%s", mask, owned, mgr, A::name()); }
 
     // compare a library object with the expected normal form; returns "" when it matches
@@ -90,11 +90,12 @@ template <class C> struct Runner {
         A::FreeUriMembers(&u); A::FreeUriMembers(&v);
         if (!what.empty()) ctx->violation("", enc(text, 64, 0, 0), what);
     }
-    void run_uri(const Str &text, int only_mask = -1, int only_owned = -1, int only_mgr = -1) {
+    void run_uri(const Str &text, int only_mask = -1, int only_owned = -1, int only_mgr = -1, bool light = false) {
         ref::RUri r; if (!ref::decompose(text, r)) { ctx->harness_error("corpus text is not a URI reference: " + text); return; }
         int sig; SanWatch sw;
         for (unsigned mask = 0; mask < 64; mask++) for (int owned = 0; owned < 2; owned++) for (int mgr = 0; mgr < 2; mgr++) {
             if ((only_mask >= 0 && (int)mask != only_mask) || (only_owned >= 0 && owned != only_owned) || (only_mgr >= 0 && mgr != only_mgr)) continue;
+            if (light && only_mask < 0 && ((mask & (mask - 1)) != 0 && mask != 63)) continue;      // stretch family: no mask, each single bit, all bits
             if ((sig = GUARD_ENTER()) == 0) { one(text, r, mask, owned, mgr); GUARD_LEAVE(); }
             else { ctx->violation("", enc(text, mask, owned, mgr), fmt("%s during normalisation (crash or write to the borrowed source text)", signame(sig))); led.reset(); }
         }
@@ -107,6 +108,8 @@ void run(Ctx &ctx) {
     Local lc; Runner<char> ra(&ctx, &lc); Runner<wchar_t> rw(&ctx, &lc);
     std::vector<Str> corpus = norm_corpus(ctx.secondary ? 0 : ctx.quick() ? 1 : 2);
     for (size_t i = 0; i < corpus.size(); i++) { if (!ctx.mine(i)) continue; if (ctx.expired()) break; ctx.progress++; ra.run_uri(corpus[i]); rw.run_uri(corpus[i]); }
+    { Runner<char> sa(&ctx, &lc, 520); Runner<wchar_t> sw2(&ctx, &lc, 520); std::vector<Str> st = stretch_list(ctx.secondary || ctx.quick() ? 0 : 1);
+      for (size_t i = 0; i < st.size(); i++) { if (!ctx.mine(i)) continue; if (ctx.expired()) break; ctx.progress++; sa.run_uri(st[i], -1, -1, -1, true); sw2.run_uri(st[i], -1, -1, -1, true); ctx.st.count("stretch_family"); } }
     ctx.st.count("evaluations", lc.cases); ctx.st.count("normalize_calls", lc.calls); ctx.st.count("cases_where_normal_form_differs_from_input", lc.changed);
     ctx.st.count("alt_spelling_used", lc.alt_used); ctx.st.count("mask_required_zero", lc.mask_zero);
     for (auto &s : lc.normal_forms) ctx.st.distinct("normal_forms", s);
@@ -114,14 +117,14 @@ void run(Ctx &ctx) {
 }
 void replay(Ctx &ctx, const Str &enc) {
     std::vector<Str> p = split(enc, '`'); if (p.size() != 5) return; Local lc;
-    if (p[4] == "A") { Runner<char> r(&ctx, &lc); r.run_uri(p[0], atoi(p[1].c_str()), atoi(p[2].c_str()), atoi(p[3].c_str())); }
-    else { Runner<wchar_t> r(&ctx, &lc); r.run_uri(p[0], atoi(p[1].c_str()), atoi(p[2].c_str()), atoi(p[3].c_str())); }
+    if (p[4] == "A") { Runner<char> r(&ctx, &lc, 520); r.run_uri(p[0], atoi(p[1].c_str()), atoi(p[2].c_str()), atoi(p[3].c_str())); }
+    else { Runner<wchar_t> r(&ctx, &lc, 520); r.run_uri(p[0], atoi(p[1].c_str()), atoi(p[2].c_str()), atoi(p[3].c_str())); }
 }
 Str coverage(const Ctx &, const Stats &st) {
     return jkv("evaluations", st.get("evaluations")) + ", " + jkv("distinct_nontrivial", st.nset("normal_forms")) + ", " +
            jkvs("rule", "cases = (URI text, mask 0..63, borrowed/owned, default/ledger manager, char type). Corpus = product of component alternatives carrying case and percent-encoding variants (triplets of unreserved and reserved characters, both hex cases, triplets at and one short of the end of a component) and all path-token sequences up to length n over {'', '.', '..', a, c:d, %2e, %2E%2E, A, %41, %7e} in four contexts (relative reference, URI with rootless path, absolute path, under an authority). Each result is compared component by component with the reference normal form, normalised a second time (idempotence), and the mask-required laws are checked per URI. distinct_nontrivial = distinct expected normal-form texts.") + ", " +
            jkv("corpus_uris", st.get("corpus")) + ", " + jkv("normalize_calls", st.get("normalize_calls")) + ", " + jkv("cases_where_normal_form_differs_from_input", st.get("cases_where_normal_form_differs_from_input")) + ", " +
-           jkv("alt_spelling_used", st.get("alt_spelling_used")) + ", " + jkv("mask_required_zero", st.get("mask_required_zero")) + ", " + jsamples(st);
+           jkv("alt_spelling_used", st.get("alt_spelling_used")) + ", " + jkv("mask_required_zero", st.get("mask_required_zero")) + ", " + jkv("stretch_family_texts", st.get("stretch_family")) + ", " + jsamples(st);
 }
 Check chk = { "C08", "exploration", run, replay, coverage, "reference normal form (harness/ref.cpp) follows RFC 3986 6.2.2.1-3; where a relative path reduces to the current directory both '.' and './' are accepted|IPv6 hosts are compared through address bytes and recomposed text" };
 REGISTER_CHECK(chk);
